@@ -76,7 +76,18 @@ func (f *boolFlow) solve() {
 				}
 				_ = e
 				if !(o || all) {
-					st = false
+					// `if a && b` evaluated as a value: the true edge was reached through the block
+					// that computed the last conjunct; what held there holds here
+					via := shortCircuitPredsFor(p, b)
+					held := len(via) > 0
+					for _, q := range via {
+						if !reach[q] || !f.out(q, f.in[q]) {
+							held = false
+						}
+					}
+					if !held {
+						st = false
+					}
 				}
 			}
 			if st != f.in[b] {
@@ -511,6 +522,116 @@ func retResults(ret *ssa.Return) []ssa.Value {
 		if last != nil {
 			out[i] = last
 		}
+	}
+	return out
+}
+
+// ---------------------------------------------------------------- short-circuit conditions as values
+//
+// go/ssa (x/tools v0.29) evaluates the case expressions of a tagless switch — and any && / ||
+// used as a value — into a phi tagged "&&" / "||" instead of control flow.  Taking the true edge
+// of `if phi(&&)` means every conjunct was true; taking the false edge of `if phi(||)` means
+// every disjunct was false.  edgeFacts lists the atomic facts of an edge; anyEdgeFact offers
+// them one by one to a rule's edge predicate in the (value, trueIdx) form the predicates were
+// written for: i == trueIdx iff the value is true on the edge.
+
+type condFact struct {
+	v     ssa.Value
+	truth bool
+}
+
+func expandCond(v ssa.Value, truth bool, out *[]condFact, depth int) {
+	for {
+		if u, ok := v.(*ssa.UnOp); ok && u.Op == token.NOT {
+			v, truth = u.X, !truth
+			continue
+		}
+		break
+	}
+	if ph, ok := v.(*ssa.Phi); ok && depth < 6 && ((ph.Comment == "&&" && truth) || (ph.Comment == "||" && !truth)) {
+		for _, e := range ph.Edges {
+			if c, ok := e.(*ssa.Const); ok && c.Value != nil && c.Value.Kind() == constant.Bool {
+				continue
+			}
+			expandCond(e, truth, out, depth+1)
+		}
+		return
+	}
+	*out = append(*out, condFact{v, truth})
+}
+
+func edgeFacts(b *ssa.BasicBlock, i int) []condFact {
+	if len(b.Instrs) == 0 || i > 1 {
+		return nil
+	}
+	ifi, ok := b.Instrs[len(b.Instrs)-1].(*ssa.If)
+	if !ok {
+		return nil
+	}
+	var out []condFact
+	expandCond(ifi.Cond, i == 0, &out, 0)
+	return out
+}
+
+func anyEdgeFact(b *ssa.BasicBlock, i int, f func(v ssa.Value, trueIdx int) bool) bool {
+	for _, cf := range edgeFacts(b, i) {
+		ti := i
+		if !cf.truth {
+			ti = 1 - i
+		}
+		if f(cf.v, ti) {
+			return true
+		}
+	}
+	return false
+}
+
+// shortCircuitPreds: if b ends in `if phi(&&)` (resp. ||) and edge i is its true (resp. false)
+// edge, control reached b through the predecessors that carry the phi's non-constant operands;
+// what held at the end of all of those holds on the edge.
+func shortCircuitPreds(b *ssa.BasicBlock, i int) []*ssa.BasicBlock {
+	if len(b.Instrs) == 0 || i > 1 {
+		return nil
+	}
+	ifi, ok := b.Instrs[len(b.Instrs)-1].(*ssa.If)
+	if !ok {
+		return nil
+	}
+	v, truth := ifi.Cond, i == 0
+	for {
+		if u, ok := v.(*ssa.UnOp); ok && u.Op == token.NOT {
+			v, truth = u.X, !truth
+			continue
+		}
+		break
+	}
+	ph, ok := v.(*ssa.Phi)
+	if !ok || ph.Block() != b || !((ph.Comment == "&&" && truth) || (ph.Comment == "||" && !truth)) {
+		return nil
+	}
+	var out []*ssa.BasicBlock
+	for k, e := range ph.Edges {
+		if c, ok := e.(*ssa.Const); ok && c.Value != nil && c.Value.Kind() == constant.Bool {
+			continue
+		}
+		out = append(out, b.Preds[k])
+	}
+	return out
+}
+
+// shortCircuitPredsFor: shortCircuitPreds for the edge(s) from p to succ (nil unless every such
+// edge qualifies).
+func shortCircuitPredsFor(p, succ *ssa.BasicBlock) []*ssa.BasicBlock {
+	var out []*ssa.BasicBlock
+	for i, s := range p.Succs {
+		if s != succ {
+			continue
+		}
+		via := shortCircuitPreds(p, i)
+		if len(via) == 0 {
+			return nil
+		}
+		out = append(out, via...)
 	}
 	return out
 }
